@@ -39,3 +39,14 @@ func TestDemoValueSurvivesEviction(t *testing.T) {
 		t.Errorf("value handed to a reader was wiped under it by the eviction of its entry: %v", got)
 	}
 }
+
+// A key a caller stored (and keeps using) must not be wiped under it when the cache evicts the entry.
+func TestDemoStoredValueIsNotTheCallersSlice(t *testing.T) {
+	cache, _ := NewCacheKeystoreWrapper(1)
+	mine := []byte{7, 7, 7, 7}
+	cache.Add("a", mine)
+	cache.Add("b", []byte{1}) // evicts "a"
+	if !bytes.Equal(mine, []byte{7, 7, 7, 7}) {
+		t.Errorf("the caller's own key buffer was wiped by the eviction of the cache entry made from it: %v", mine)
+	}
+}
